@@ -115,6 +115,7 @@ InvIdempotent  == done => \A r \in Roots(inst) :
                             res[r].ok => SortedAt([inst EXCEPT !.order = res[r].order], r) = res[r]
 \* reference characterisations
 InvRefGlobal   == done => \A r \in Roots(inst) : RefGlobal(inst, r) = res[r]
+\* (holds up to 3 nodes only - see the comment at TopoSort!RefPerGraph; listed in the <=3 cfgs)
 InvRefPerGraph == done => \A r \in Roots(inst) : RefPerGraph(inst, r) = res[r]
 InvCyclicDef   == done => \A r \in Roots(inst) : Cyclic(inst, r) <=> ~HasTopoOrder(inst, r)
 =============================================================================
